@@ -68,3 +68,7 @@ REVIEWED_LOOPS = dict(HUFFMAN_DECOMPRESS_LOOPS)
 def run(ctx, rep):
     R, pa = totality(ctx, rep, "R1-no-panic", ENTRIES, REVIEWED)
     loops(ctx, rep, "R2-loops", R, REVIEWED_LOOPS)
+    if ctx.tier == "thorough":
+        from .. import witness
+        n = witness.run(ctx, rep, "R3-compile-fail-witnesses", ("W7", "W8"))
+        rep.floor("R3-compile-fail-witnesses", n, 2, "type-level witnesses W7-W8 of witness/src/lib.rs (parsed packets borrow the datagram and the scratch buffer)")
